@@ -81,8 +81,12 @@ def _zero_constraint_counts(
 
 
 @wp.kernel
-def _njmax_nnz_overflow(
+def _constraint_overflow(
+  # Model:
+  is_sparse: bool,
   # Data in:
+  nefc_in: wp.array[int],
+  njmax_in: int,
   njmax_nnz_in: int,
   # In:
   efc_nnz_in: wp.array[int],
@@ -91,8 +95,13 @@ def _njmax_nnz_overflow(
 ):
   worldid = wp.tid()
 
-  # rows whose Jacobian did not fit were dropped: report it (the dropped row's rowadr is never written)
-  if efc_nnz_in[worldid] > njmax_nnz_in:
+  # report dropped rows here: the counters are rebuilt by the next call (e.g. the next Runge-Kutta stage)
+  # before step() looks at them
+  if nefc_in[worldid] > njmax_in:
+    overflow_out[worldid] = overflow_out[worldid] | types.OverflowType.NEFC
+
+  # rows whose Jacobian did not fit were dropped (a dropped row's rowadr is never written)
+  if is_sparse and efc_nnz_in[worldid] > njmax_nnz_in:
     overflow_out[worldid] = overflow_out[worldid] | types.OverflowType.NJMAX_NNZ
 
 
@@ -5875,8 +5884,14 @@ def make_constraint(m: types.Model, d: types.Data):
           ],
         )
 
+  wp.launch(
+    _constraint_overflow,
+    dim=d.nworld,
+    inputs=[m.is_sparse, d.nefc, d.njmax, d.njmax_nnz, efc_nnz],
+    outputs=[d.overflow],
+  )
+
   if m.is_sparse:
-    wp.launch(_njmax_nnz_overflow, dim=d.nworld, inputs=[d.njmax_nnz, efc_nnz], outputs=[d.overflow])
     wp.launch(
       _njmax_nnz_empty_dropped_rows,
       dim=(d.nworld, d.njmax),
